@@ -644,7 +644,7 @@ def transpose(x, axes=None, out=None, out_like=None, sizing='optimal', method='r
     """
     def _transpose_raw(x, n_frac, **kwargs):
         precision_cast = (lambda m: np.array(m, dtype=object)) if n_frac >= _n_word_max else (lambda m: m)
-        return (x.val.T) * precision_cast(2**(n_frac - x.n_frac))
+        return np.transpose(x.val, axes=kwargs.get('axes', None)) * precision_cast(2**(n_frac - x.n_frac))
 
     kwargs['axes'] = axes
     return _function_over_one_var(repr_func=np.transpose, raw_func=_transpose_raw, x=x, out=out, out_like=out_like, sizing=sizing, method=method, **kwargs)
